@@ -414,7 +414,7 @@ class ValueWrapper(Term):
         if isinstance(value, uuid.UUID):
             return cls.get_formatted_value(str(value), ctx)
         if isinstance(value, (dict, list)):
-            return format_quotes(json.dumps(value), quote_char)
+            return cls.get_formatted_value(json.dumps(value), ctx)
         if value is None:
             return "null"
         return str(value)
